@@ -110,7 +110,7 @@ ALLOWED_AXIOMS = set()  # none: every property theorem must be closed under the 
 def coq_props(prop_file):
     """Re-checks Props/<file>.v on its own and returns (ok, theorems, assumptions, output)."""
     path = os.path.join(COQ, "Props", prop_file)
-    rc, out = sh("timeout 600 coqc -q -noglob -Q Model Truc.Model -Q Proofs Truc.Proofs -Q Props Truc.Props Props/%s" % prop_file,
+    rc, out = sh("timeout 600 coqc -q -noglob -Q Model Truc.Model -Q Proofs Truc.Proofs -Q Props Truc.Props -Q Current Truc.Current Props/%s" % prop_file,
                  cwd=COQ, timeout=700)
     src = open(path, encoding="utf-8").read()
     theorems = re.findall(r"^\s*(?:Theorem|Example|Corollary)\s+(\w+)", src, re.M)
